@@ -5,7 +5,7 @@ use super::Monitor;
 use crate::core::*;
 use crate::sut;
 use crate::syntax::lex;
-use crate::val::{Outcome, ALL_EV};
+use crate::val::{Ev, Outcome, Val, ALL_EV};
 
 pub struct C01;
 
@@ -21,11 +21,98 @@ impl Monitor for C01 {
             Tier::Quick => Sizes { w1_full: 3, w1_class: 4, w2: 3, w3: 80_000, w4: 80_000, bombs: true },
             Tier::Thorough => Sizes { w1_full: 3, w1_class: 5, w2: 4, w3: 1_500_000, w4: 1_500_000, bombs: true },
         };
-        for ev in ALL_EV {
-            hostile(ctx, ev, &sz, "", &mut |ctx, case| {
-                ctx.check(&case, &|c, st| self.judge(c, st));
-            });
+        if !ctx.solo {
+            for ev in ALL_EV {
+                hostile(ctx, ev, &sz, "", &mut |ctx, case| {
+                    ctx.check(&case, &|c, st| self.judge(c, st));
+                });
+            }
+            return;
         }
+        // Solo phase (one worker per configuration, after the others: with 16 busy workers the threads
+        // of a child process run almost one after the other and nothing races). First use under contention: fresh processes in which 8 threads leave a barrier together and
+        // sweep one construct over ascending arguments. A table that is filled lazily behind a lock is
+        // filled there by several threads at once; a slip in that code panics (and poisons the lock)
+        // although every single-threaded call is fine (seeded change C01-r9). The outcomes themselves
+        // are C16's to compare; here only a panic counts.
+        let exe = std::env::current_exe().ok();
+        let dir = format!("{}/.build/tmp", crate::driver::root());
+        let _ = std::fs::create_dir_all(&dir);
+        let templates = ["@!", "(@)!+1", "(@+0.5)!", "w(@)", "ilog(@,2)", "2^@", "@^3", "sqrt(@)", "exp(@/10)", "ln(@+1)", "gcd(@,360)", "lcm(@,12)", "@!/(@-1)!", "med(@,3,@+1)", "root(3,@)", "@%7", "sin(@)", "1/@"];
+        // every (evaluator, construct) pair, with the threads in step and with every thread starting
+        // elsewhere in the sweep; several times over in the thorough tier
+        let n_proc = ALL_EV.len() * templates.len() * 2 * ctx.tier.pick(1usize, 6); // two sweeps per pair, the threads starting at different members (three times in four)
+        for s in 0..n_proc {
+            let exe = match &exe {
+                Some(e) => e,
+                None => break,
+            };
+            let mut rng = ctx.rng("concurrent-first-use", ctx.shard * 1000 + s as u64);
+            let combo = (s / 2) % (ALL_EV.len() * templates.len());
+            let ev = ALL_EV[combo % ALL_EV.len()];
+            let t = templates[combo / ALL_EV.len()];
+            let start = if s % 2 == 0 { *rng.pick(&[18i64, 20, 30][..]) } else { *rng.pick(&[0i64, 15, 100, 150][..]) };
+            let cases: Vec<Case> = (0..24 + rng.below(20) as i64)
+                .map(|k| {
+                    let k = start + k;
+                    let ph = match ev {
+                        Ev::F64 => Val::F(k as f64),
+                        Ev::I64 => Val::I(k),
+                        Ev::Dec => Val::D(crate::val::DecV { neg: false, mant: k as u128, scale: 0 }),
+                        Ev::Cpx => Val::C(k as f64, 0.0),
+                        Ev::Num => {
+                            if k % 3 == 0 {
+                                Val::NF(k as f64)
+                            } else {
+                                Val::NI(k)
+                            }
+                        }
+                    };
+                    Case::new(ev, "concurrent-first-use", t, ph)
+                })
+                .collect();
+            let path = format!("{}/c01-conc-{}-{}-{}.jsonl", dir, std::process::id(), ctx.shard, s);
+            let text: String = cases.iter().map(|c| c.to_json().to_string() + "\n").collect();
+            if std::fs::write(&path, text).is_err() {
+                continue;
+            }
+            let out = std::process::Command::new(exe).arg("fresh-conc").arg(&path).arg("8").arg(if s % 4 == 3 { "together" } else { "rotate" }).output();
+            let _ = std::fs::remove_file(&path);
+            let j = match out {
+                Ok(o) if o.status.success() => match crate::json::J::parse(String::from_utf8_lossy(&o.stdout).trim()) {
+                    Ok(j) => j,
+                    Err(_) => continue,
+                },
+                _ => {
+                    ctx.stats.inc("concurrent_processes_failed_to_run");
+                    continue;
+                }
+            };
+            ctx.stats.inc("concurrent_first_use_processes");
+            let mut lists: Vec<Vec<String>> = j.arr("threads").iter().map(|a| a.as_arr().iter().filter_map(|x| x.as_str().map(|t| t.to_string())).collect()).collect();
+            lists.push(j.arr("after").iter().filter_map(|x| x.as_str().map(|t| t.to_string())).collect());
+            for (ti, outs) in lists.iter().enumerate() {
+                for (k, o) in outs.iter().enumerate() {
+                    if k >= cases.len() {
+                        break;
+                    }
+                    let panicked = o.starts_with("panic ");
+                    let c = cases[k].clone().with_extra(&format!("thread {} of a fresh process with 8 threads started together", ti));
+                    ctx.check(&c, &|_c, st| {
+                        if panicked {
+                            let site: String = o.rsplit('@').next().unwrap_or("").chars().filter(|ch| !ch.is_ascii_digit()).collect();
+                            viol("panic", format!("C01|{}|panic-under-concurrent-first-use|{}", ev.name(), site.trim_end_matches(':')), format!("panicked when 8 threads of a fresh process evaluated the same ascending sweep together: {}", o))
+                        } else {
+                            st.inc("concurrent_first_use_calls_without_panic");
+                            pass(false)
+                        }
+                    });
+                }
+            }
+        }
+    }
+    fn solo_phase(&self) -> bool {
+        true
     }
     fn judge(&self, case: &Case, st: &mut Stats) -> Verdict {
         let o = sut::call(case.ev, &case.exprs[0], &case.phs[0]);
@@ -53,6 +140,6 @@ impl Monitor for C01 {
         ]
     }
     fn floors(&self, _t: Tier) -> Vec<(String, u64)> {
-        vec![("by_outcome.ok".into(), 1000), ("by_outcome.err".into(), 1000)]
+        vec![("by_outcome.ok".into(), 1000), ("by_outcome.err".into(), 1000), ("concurrent_first_use_calls_without_panic".into(), 1000)]
     }
 }
